@@ -76,7 +76,9 @@ CHECKS = {
              "every call (incl. ret_details=True; returned arrays must not "
              "share memory with arguments). Pure entry points (POC estimators, model and "
              "residual functions, rater, features) are enumerated over a "
-             "grid with before/after digests.",
+             "grid with before/after digests; for the model/residual functions "
+             "all call/edit sequences up to length 4 (5) on long-lived "
+             "parameter, abscissa and force objects are compared with fresh copies.",
         design_ref="DESIGN.md §2 C10",
         note="Alias structure is part of the canonical state; an edit "
              "counts only if the twin notices it (non-vacuity enforced, "
@@ -90,7 +92,9 @@ CHECKS = {
         text="Explicit-state BFS over curve-state operations (preprocess, "
              "fit, refit, unsuccessful fit, settings edit, failed call) "
              "interleaved with 9 rating operations to depth 3/4 on curves "
-             "with >= 600 and < 600 approach points and a recorded curve; "
+             "with >= 600 and < 600 approach points and a recorded curve "
+             "(plus a deeper search, depth 4/6, over rejected requests, fits "
+             "and ratings on the short curve); "
              "after every rating the value is compared with the documented "
              "rules and with a separately constructed standalone rater. A "
              "full sweep of all regressors x training sets x feature "
@@ -285,7 +289,8 @@ CHECKS = {
              "same cell (contact point, baseline, curve, xmin/xmax, mask, "
              "E k^p), and every optimisation pass must start from k x the "
              "stored initial contact point on k x the measured abscissa "
-             "(exact check).",
+             "(exact check); cells without initial parameters check that the "
+             "estimated contact point does not depend on k.",
         design_ref="DESIGN.md §2 C11",
         note="Plateau cells on noisy data / strongly mismatched models "
              "get the exact per-pass checks only (shallow scan fits are "
@@ -303,7 +308,9 @@ CHECKS = {
              "corners of the stated convergence basin x noise level x noise "
              "realisation (quick: a sub-grid in which every axis takes >= 2 "
              "values); success flag, parameter recovery to optimiser "
-             "precision, curve recovery, noise-proportional error bounds.",
+             "precision, curve recovery on the whole fitted segment (also for "
+             "fits on an absolute / contact-point-relative sub-interval), "
+             "noise-proportional error bounds.",
         design_ref="DESIGN.md §2 C01",
         note="The convergence basin and the noise constants are stated by "
              "the check (regression bounds); the layered model's sample "
@@ -423,7 +430,7 @@ def build():
              "kind_free_text": "closure (fixpoint) search of small dictionary-like stores against a reference model"},
         ],
         "checks": checks,
-        "notes": "All checks run the real nanite code from /repo/src (no build step). Exit 0 = held, 1 = VIOLATION (every reported counterexample was re-executed and reproduced in a fresh interpreter), 2 = harness error (no verdict). known_findings.json lists genuine defects (fixed ones with their fix: commit). seeded/ holds 98 confirmed property-breaking changes with the checks' results (seeded/MATRIX.md); tools/seedtest.py re-runs them.",
+        "notes": "All checks run the real nanite code from /repo/src (no build step). Exit 0 = held, 1 = VIOLATION (every reported counterexample was re-executed and reproduced in a fresh interpreter), 2 = harness error (no verdict). known_findings.json lists genuine defects (fixed ones with their fix: commit). seeded/ holds 122 confirmed property-breaking changes with the checks' results (seeded/MATRIX.md); tools/seedtest.py re-runs them.",
         "not_applicable": [{"property_id": p, "reason": NA_REASON}
                            for p in ALL if p not in CHECKS],
     }
